@@ -517,6 +517,14 @@ fn main() {
     let mut c14 = Monitor::new("C14", "committed graphs (generated DAGs, possibly multi-head) + ephemeral sessions: session actions publish 1-3 commands whose scripts insert/delete (also committed facts) and exact-query via Require; actions fail after j publishes or by a write-then-fail command; messages are received by a second session; after every operation a second action records prefix queries (all names + sampled prefixes) compared with model = committed facts overlaid with the session's writes; heads and committed facts compared before/after. non-trivial = >=3 session operations; distinct by op log x DAG shape")
         .min(20)
         .require("failing_session_operations", "failing session operations must occur");
+    if args.scale < 100 {
+        // reduced slices (Miri): the interpreter's own reports are the oracle; keep only the
+        // requirement that something non-trivial ran
+        for m in [&mut c12, &mut c13, &mut c14] {
+            m.min_nontrivial = 2;
+            m.required.clear();
+        }
+    }
     if let Some(r) = args.replay_case() {
         let c = &r["case"]["case"];
         let cs = c["case_seed"].as_u64().unwrap();
@@ -559,7 +567,10 @@ fn main() {
     run("C13", args.n(3000, 60_000), &mut c13, &c13_case);
     if args.wants("C14") || args.wants("C13") {
         // C14 workload (its failing operations are also C13's session half)
-        let n = args.n(if args.wants("C14") { 600 } else { 150 }, 12_000);
+        let mut n = args.n(if args.wants("C14") { 600 } else { 150 }, 12_000);
+        if let Some(k) = args.get("miri_cases") {
+            n = k.parse().unwrap_or(3);
+        }
         struct S(Monitor, Monitor);
         unsafe impl Send for S {}
         let parts = par_shards(cores().min(n as usize).max(1), |sh, tot| {
